@@ -23,6 +23,7 @@ class FnRef:
 class Engine(ExprMixin, CallMixin, StmtMixin):
     def __init__(self, src_root="/repo/src"):
         self.front = Front(src_root)
+        self.package = "gwf"             # functions of this package without a contract are inlined at call sites
         self.contracts = {}
         self.classes = {}
         self.vocab = {}
